@@ -152,7 +152,11 @@ func c10Run(c *Ctx, tp *tape.Tape, extra map[string]any) *Failure {
 		return nil
 	}
 	if d := cisco.DiffCanon(cisco.Canon(r2.Dev.Node.Conf, sc), cisco.Canon(cs.B, sc)); d != "" {
-		if k := "live-resume-state-differs|" + diffKind(d); !c.NoteKnown(kind + "|" + k) {
+		k := "live-resume-state-differs|" + diffKind(d)
+		if kind == "IOS" && hasRemarks(cs) {
+			k += "|acl-with-remarks"
+		}
+		if !c.NoteKnown(kind + "|" + k) {
 			return mk(k, "after the second session: "+d, in)
 		}
 	}
